@@ -10,7 +10,7 @@ use serde_json::{json, Value};
 use std::num::NonZero;
 use vph::refdec;
 
-pub const RULE: &str = "every input length 1..49 (block 16) × 3 signal kinds × channels {1,2} × depth {8,16} × seek policy {off, frames 1/2/3, seconds 1 at rates 16/24/44100/0} × declared/undeclared × padding {none, 4096, 4+18k+δ for δ∈−8..8 (k = seek points of this configuration)} × writer start offset {0,7} × extra metadata {none, comment+application}; each finished device image is judged by the independent validator (sample count, parameters, frame-size extrema, block-size rule, MD5, every defined seek point = a real frame, ordering, placeholders last), by the device call log (nothing written before the stream start; once audio exists no write touches bytes that already hold audio) and by generate_seektable(file, same interval) == defined points; plus the byte (LE/BE) and channel writers × length 1..49 × channels {1,2} × depth {8,12,16,24,32} × declared/undeclared × seek table on/off judged by the independent validator; thorough adds >932067-frame streams";
+pub const RULE: &str = "every input length 1..49 (block 16) × 3 signal kinds × channels {1,2} × depth {8,16} × seek policy {off, frames 1/2/3, seconds 1 at rates 16/24/44100/0} × declared/undeclared × padding {none, 4096, 4+18k+δ for δ∈−8..8 (k = seek points of this configuration)} × writer start offset {0,7} × extra metadata {none, comment+application}; plus long streams (lengths 65535, 65536, 65537, 65551..65553, 69632, 106496, 106596, 131075 PCM frames × block 16/4096 × seconds/frames policies at 4 rates × declared/undeclared × padding default/none); each finished device image is judged by the independent validator (sample count, parameters, frame-size extrema, block-size rule, MD5, every defined seek point = a real frame, ordering, placeholders last), by the device call log (nothing written before the stream start; once audio exists no write touches bytes that already hold audio) and by generate_seektable(file, same interval) == defined points; plus the byte (LE/BE) and channel writers × length 1..49 × channels {1,2} × depth {8,12,16,24,32} × declared/undeclared × seek table on/off judged by the independent validator; thorough adds >932067-frame streams";
 pub const ASSUMPTIONS: &[&str] = &["PCM values come from 3 fixed signal kinds (values: C01)"];
 pub fn bounds(quick: bool) -> Value {
     json!({"lengths": "1..49", "padding_delta": "-8..8", "huge_stream": if quick { "not run" } else { "932100 frames of 16 constant samples, declared and undeclared, seektable_frames(1)" }})
@@ -37,6 +37,7 @@ struct Cfg {
     pad: Pad,
     start: usize,
     extra: bool,
+    block: u16,
 }
 
 fn interval(seek: Seek) -> Option<SeekTableInterval> {
@@ -67,7 +68,7 @@ fn expected_points(seek: Seek, rate: u32, total: usize) -> usize {
 
 fn run_case(c: &Cfg) -> Result<(), (String, String)> {
     let pcm = signal(c.kind, &c.sig, c.len);
-    let opt = Opt { seek: c.seek, pad: c.pad, declared: c.declared, ..Opt::base16() };
+    let opt = Opt { seek: c.seek, pad: c.pad, declared: c.declared, block: c.block, ..Opt::base16() };
     let junk: Vec<u8> = (0..c.start).map(|i| 0xA0 + i as u8).collect();
     let r = guarded(|| -> Result<(MemDevice, usize), String> {
         let mut dev = MemDevice::new(junk.clone(), c.start as u64);
@@ -152,7 +153,7 @@ fn run_case(c: &Cfg) -> Result<(), (String, String)> {
 
 fn cfg_json(c: &Cfg) -> Value {
     json!({"kind":"finalize-truth","len":c.len,"signal":c.kind,"ch":c.sig.ch,"bps":c.sig.bps,"rate":c.sig.rate,
-        "opt": Opt{seek:c.seek,pad:c.pad,declared:c.declared,..Opt::base16()}.to_json(),"start":c.start,"extra":c.extra})
+        "opt": Opt{seek:c.seek,pad:c.pad,declared:c.declared,block:c.block,..Opt::base16()}.to_json(),"start":c.start,"extra":c.extra})
 }
 
 fn huge(declared: bool) -> Result<(), (String, String)> {
@@ -259,7 +260,7 @@ pub fn run(ctx: &Ctx, acc: &mut Acc) {
                                         if !ctx.mine() {
                                             continue;
                                         }
-                                        let c = Cfg { len, kind, sig: Sig { rate, bps, ch }, seek, declared, pad, start, extra };
+                                        let c = Cfg { len, kind, sig: Sig { rate, bps, ch }, seek, declared, pad, start, extra, block: 16 };
                                         acc.states += 1;
                                         acc.executions += 1;
                                         acc.transitions += 3;
@@ -275,6 +276,31 @@ pub fn run(ctx: &Ctx, acc: &mut Acc) {
                                         }
                                     }
                                 }
+                            }
+                        }
+                    }
+                }
+            }
+        }
+    }
+    // ---- long streams: lengths around 2^16 and 2·2^16 samples, where 16-bit frame/remaining-sample arithmetic wraps
+    for len in [65_535usize, 65_536, 65_537, 65_551, 65_552, 65_553, 69_632, 106_496, 106_596, 131_075] {
+        for block in [16u16, 4096] {
+            for (seek, rate) in [(Seek::Seconds(1), 8000u32), (Seek::Seconds(1), 44100), (Seek::Seconds(2), 22050), (Seek::Frames(7), 44100), (Seek::Default, 1000)] {
+                for declared in [true, false] {
+                    for pad in [Pad::Default, Pad::None] {
+                        if !ctx.mine() {
+                            continue;
+                        }
+                        let c = Cfg { len, kind: if block == 16 { 0 } else { 2 }, sig: Sig { rate, bps: 16, ch: 1 }, seek, declared, pad, start: 0, extra: false, block };
+                        acc.states += 1;
+                        acc.executions += 1;
+                        acc.transitions += 3;
+                        match run_case(&c) {
+                            Ok(()) => acc.outcome(format!("long:ok:{:?}:decl{}", seek, declared)),
+                            Err((clause, detail)) => {
+                                acc.outcome(format!("bad:{clause}"));
+                                acc.violation(format!("C09|long|{clause}"), format!("{c:?}: {detail}"), cfg_json(&c));
                             }
                         }
                     }
@@ -301,7 +327,7 @@ pub fn replay(v: &Value) -> Option<(bool, String)> {
     match v["kind"].as_str()? {
         "finalize-truth" => {
             let o = Opt::from_json(&v["opt"]);
-            let c = Cfg { len: v["len"].as_u64()? as usize, kind: v["signal"].as_u64()? as usize, sig: crate::codec::sig_from(v), seek: o.seek, declared: o.declared, pad: o.pad, start: v["start"].as_u64()? as usize, extra: v["extra"].as_bool()? };
+            let c = Cfg { len: v["len"].as_u64()? as usize, kind: v["signal"].as_u64()? as usize, sig: crate::codec::sig_from(v), seek: o.seek, declared: o.declared, pad: o.pad, start: v["start"].as_u64()? as usize, extra: v["extra"].as_bool()?, block: o.block };
             let r = run_case(&c);
             Some((r.is_err(), format!("{r:?}")))
         }
